@@ -211,7 +211,8 @@ def gen_related(rng, world, prev):
         q["fill"] = rng.choice(FILLS)
         return q
     if g == "adsorbate":
-        q["T"] = rng.choice([t for t in [None, 77.355, 120.0, 273.15, 298.15, 500.0] if t != prev["T"]])
+        if rng.random() < 0.55:
+            q["T"] = rng.choice([t for t in [None, 77.355, 120.0, 273.15, 298.15, 500.0] if t != prev["T"]])
         if rng.random() < 0.5:
             q["method"] = rng.choice(["saturation_pressure", "liquid_density", "gas_density", "surface_tension", "enthalpy_vaporisation",
                                       "gas_molar_density", "liquid_molar_density"])
@@ -561,9 +562,16 @@ def execute(ctx, world, rng=None, steps=None, cfg=None):
         n = cfg["n_steps"] if steps is None else len(steps)
         prev = None
         prev_err = False
+        pending = None
         for j in range(n):
             if steps is None:
-                if cfg["mutators"] and rng.random() < 0.12:
+                if pending is not None:
+                    q, pending = pending, None          # the same query again, right after a conversion of its isotherm
+                elif cfg["mutators"] and prev is not None and prev["g"] in ("interp", "spread") and rng.random() < 0.2:
+                    q = gen_mutator(rng, world)
+                    q["iso"] = prev["iso"]
+                    pending = copy.deepcopy(prev)
+                elif cfg["mutators"] and rng.random() < 0.12:
                     q = gen_mutator(rng, world)
                 elif prev is not None and prev["g"] in ("interp", "spread", "adsorbate", "n2char") and rng.random() < cfg["related_p"]:
                     q = gen_related(rng, world, prev)
@@ -613,6 +621,9 @@ def execute(ctx, world, rng=None, steps=None, cfg=None):
                     count("probe:query-after-refused-query")
                 if prev["g"] == "mutator":
                     count("probe:query-after-mutator")
+                    if len(executed) >= 3 and executed[-3].get("g") in ("interp", "spread") and executed[-3].get("iso") == q.get("iso") \
+                            and executed[-3].get("q") == q.get("q"):
+                        count("probe:same-query-before-and-after-conversion")
                 if prev["g"] == "interp" and q["g"] in ("interp", "spread") and prev.get("iso") == q.get("iso"):
                     same = (prev.get("branch"), prev.get("kind"), json.dumps(prev.get("fill"))) == (q.get("branch"), q.get("kind"), json.dumps(q.get("fill")))
                     count("probe:same-interpolator-reused" if same else "probe:interpolator-replaced")
